@@ -451,12 +451,16 @@ public:
         if (hasDataFrame(name)) {
             throw DuplicateName("create DataFrame");
         }
+        if (cols.empty()) {
+            throw std::invalid_argument("Block::createDataFrame: at least one column is required");
+        }
         std::set<std::string> names;
         for (const Column &c : cols) {
-            if (!Variant::supports_type(c.dtype)) {
+            if (!Variant::supports_type(c.dtype) || c.dtype == DataType::Nothing) {
                 std::string msg = "Incompatible DataType for column ";
                 throw std::invalid_argument(msg + c.name);
             }
+            util::checkEmptyString(c.name, "column name");
             std::pair<std::set<std::string>::iterator, bool> inserted = names.insert(c.name);
             if (!inserted.second) {
                 throw ConsistencyError("Block::createDataFrame: Column names must be unique!");
